@@ -17,9 +17,24 @@
       - C03_libcst_step: table-indexed by what LibcstTransformerPipeline.apply diffs (Generated/Tables.v
         [diff_source]); FromTrees needs the oracle contract code(parse t) = t and is refuted without it
         (BOM; finding class kf_lossy_roundtrip).
-    NOT here (another engineer's Run.v): C03_unchanged, and the lifting of C03_diffs_compose to the
-    orchestration model; the manifest writers' diffs (Manifest.v). *)
-From CM Require Import Spec.DiffSpec Proofs.DiffFacts Proofs.DiffSplit Proofs.DiffLinenums Proofs.DiffCompose
+    On the orchestration model (Model/Run.v, owned by the Run engineer; lemmas in Proofs/RunLift.v, Proofs/RunDiff.v):
+      - C03_unchanged_files_identical (= RunLift.C03_unchanged, re-audited here): a completed run leaves every path
+        without a change set with exactly its initial content;
+      - C03_run_diffs_compose: in a real run with distinct codemod ids, the diffs reported for a path, in report
+        order, fold from the initial content to the final content (up to norm_nl); conditional on explicit premises
+        (see Proofs/RunDiff.v): the table value t_diff = diff_source = FromFileText (old side of the pipeline diff = file text; the
+        statement's other branch is True and C03_run_tables_branch shows which one /repo takes), the matcher's two contracts, transformers introduce
+        no exotic line boundary, and [HW]: the four manifest writers' (diff, content) pairs have the round trip -
+        the writers are oracles of Run.v and HW is NOT proved (it is false on /repo for kf_manifest_crlf and
+        kf_pyproject_phantom_line); so for manifests the claim rests on the end-to-end observation;
+      - C03_changeset_changes_file: a change set made by a pipeline that has the `if not diff` guard (libcst, XML)
+        names a file whose content that step changed, and its diff applies to the content before the step.
+        For the regex pipeline (no such guard: C03_regex_has_no_diff_guard) this is not proved.
+    NOT proved anywhere (DESIGN §4.5-§4.7/§5 name them; they do not exist): C03_req_diff_faithful (requirements
+    writer's diff under lf_manifest), C03_refuted_bom_cr as a Run.v theorem (its content is the FromTrees branch
+    of C03_libcst_step), and a whole-run "net change" form of changeset => changed (a later codemod may revert). *)
+From CM Require Import Model.Run Spec.RunSpec Proofs.RunSteps Proofs.RunLift.
+From CM Require Import Spec.DiffSpec Proofs.DiffFacts Proofs.DiffSplit Proofs.DiffLinenums Proofs.DiffCompose Proofs.RunDiff
   Generated.Tables.
 Local Open Scope N_scope.
 
@@ -173,6 +188,104 @@ Qed.
 Theorem C03_libcst_step : C03_libcst_step_statement diff_source.
 Proof. exact (C03_libcst_step_all diff_source). Qed.
 Print Assumptions C03_libcst_step.
+
+(** ** On the orchestration model *)
+Theorem C03_unchanged_files_identical : C03_unchanged_statement.
+Proof. exact C03_unchanged. Qed.
+Print Assumptions C03_unchanged_files_identical.
+
+Definition diff_from_text (tb : run_tables) : bool := match t_diff tb with FromFileText => true | FromTrees => false end.
+Lemma diff_from_text_eq tb : diff_from_text tb = true -> t_diff tb = FromFileText.
+Proof. unfold diff_from_text. destruct (t_diff tb); [discriminate|reflexivity]. Qed.
+
+Definition C03_run_diffs_compose_statement (tb : run_tables) : Prop :=
+  if nochange_guarded tb && diff_from_text tb then
+    forall (tree : Type) parse code T S R (matcher : list str -> list str -> script) W fsel (cfg : config) (p : path),
+      (forall a b, a_of (matcher a b) = a /\ b_of (matcher a b) = b) ->
+      (forall a, hunks (matcher a a) = []) ->
+      dry_run cfg = false ->
+      (forall K b t fi t' chs ds, parse (cpipe K) b = Some t -> T K t fi = Changed t' chs ds -> clean b ->
+                                  clean (code (cpipe K) t')) ->
+      (forall k b ds b' d chs, W k (Some b) ds = Some (b', d, chs) -> clean b ->
+                               apply_udiff d b = Some (norm_nl b') /\ clean b') ->
+      forall (Ks : list codemod) (fs : fsys) (stores : list store) (s' : state) (c : bytes),
+        run tb tree parse code T S R (real_diff matcher) W fsel cfg Ks fs stores = Run.Ok s' ->
+        NoDup (map cid Ks) -> lookup fs p = Some c -> clean c ->
+        exists c', lookup (s_fs s') p = Some c' /\
+                   fold_apply (reported p Ks s') c = Some (match reported p Ks s' with [] => c | _ => norm_nl c' end) /\
+                   (reported p Ks s' = [] -> c' = c)
+  else True.
+Lemma C03_run_diffs_compose_all tb : C03_run_diffs_compose_statement tb.
+Proof.
+  unfold C03_run_diffs_compose_statement. destruct (nochange_guarded tb) eqn:G; [|exact I].
+  destruct (diff_from_text tb) eqn:D; [|exact I]. cbn [andb]. apply diff_from_text_eq in D.
+  intros tree parse code T S R matcher W fsel cfg p Hv He Hdry HT HW Ks fs stores s' c Hr Hnd Hl Hc.
+  exact (run_diffs_compose tb tree parse code T S R (real_diff matcher) W fsel cfg p Hdry G D
+           (real_diff_roundtrip matcher Hv) (real_diff_refl matcher He) HT HW Ks fs stores s' c Hr Hnd Hl Hc).
+Qed.
+Theorem C03_run_diffs_compose : C03_run_diffs_compose_statement run_tables_v.
+Proof. exact (C03_run_diffs_compose_all run_tables_v). Qed.
+Print Assumptions C03_run_diffs_compose.
+
+Definition C03_changeset_changes_file_statement (tb : run_tables) : Prop :=
+  if nochange_guarded tb && diff_from_text tb then
+    forall (tree : Type) parse code T (matcher : list str -> list str -> script) (cfg : config) (p : path),
+      (forall a b, a_of (matcher a b) = a /\ b_of (matcher a b) = b) ->
+      (forall a, hunks (matcher a a) = []) ->
+      dry_run cfg = false ->
+      (forall K b t fi t' chs ds, parse (cpipe K) b = Some t -> T K t fi = Changed t' chs ds -> clean b ->
+                                  clean (code (cpipe K) t')) ->
+      forall K res (fs : fsys) cx cs b,
+        has_guard IfNoDiff (guards_of tb (cpipe K)) = true ->
+        lookup fs p = Some b -> clean b ->
+        fst (process_file tb tree parse code T (real_diff matcher) cfg K res fs p) = FCtx cx -> In cs (fc_cs cx) ->
+        exists b', lookup (snd (process_file tb tree parse code T (real_diff matcher) cfg K res fs p)) p = Some b' /\
+                   b' <> b /\ cs_path cs = p /\ apply_udiff (cs_diff cs) b = Some (norm_nl b')
+  else True.
+Lemma C03_changeset_changes_file_all tb : C03_changeset_changes_file_statement tb.
+Proof.
+  unfold C03_changeset_changes_file_statement. destruct (nochange_guarded tb) eqn:G; [|exact I].
+  destruct (diff_from_text tb) eqn:D; [|exact I]. cbn [andb]. apply diff_from_text_eq in D.
+  intros tree parse code T matcher cfg p Hv He Hdry HT K res fs cx cs b Hg Hl Hc Hf Hin.
+  exact (changeset_changes_file tb tree parse code T (real_diff matcher) cfg p Hdry G D
+           (real_diff_roundtrip matcher Hv) (real_diff_refl matcher He) HT K res fs cx cs b Hg Hl Hc Hf Hin).
+Qed.
+Theorem C03_changeset_changes_file : C03_changeset_changes_file_statement run_tables_v.
+Proof. exact (C03_changeset_changes_file_all run_tables_v). Qed.
+Print Assumptions C03_changeset_changes_file.
+
+(** the positive branches are the ones taken on the tables extracted from /repo, and which pipelines test the diff *)
+Example C03_run_tables_branch :
+  nochange_guarded run_tables_v = true /\ diff_from_text run_tables_v = true /\
+  has_guard IfNoDiff (guards_of run_tables_v PLibcst) = true /\ has_guard IfNoDiff (guards_of run_tables_v PXml) = true.
+Proof. vm_compute. repeat split. Qed.
+Example C03_regex_has_no_diff_guard : has_guard IfNoDiff (guards_of run_tables_v PRegex) = false.
+Proof. vm_compute. reflexivity. Qed.
+
+(** a concrete instance meeting every premise of the two statements, on which a run reports one change set *)
+Definition whole_matcher (a b : list str) : script :=
+  if list_eqb str_eqb a b then {| gap0 := a; hunks := [] |} else {| gap0 := []; hunks := [([SRep a b], [])] |}.
+Definition ex_T (K : codemod) (t : bytes) (fi : option (list finding)) : outcome bytes :=
+  if str_eqb t [97; 10] then Changed [98; 10] [(1, [])] [] else NoChange.
+Definition ex_K : codemod := {| cid := [107]; cpipe := PLibcst; cdet := DNone; cbase := FindAndFix; cavail := true |}.
+Definition ex_cfg : config := {| dry_run := false; all_files := [[102]]; ff_paths := [[102]]; scan_all := [] |}.
+Definition ex_run := run run_tables_v bytes (fun _ b => Some b) (fun _ t => t) ex_T (fun _ _ _ => []) (fun _ => [])
+                         (real_diff whole_matcher) (fun _ _ _ => None) (fun _ _ => true) ex_cfg [ex_K] [([102], [97; 10])] [].
+Example C03_run_example :
+  (forall a b, a_of (whole_matcher a b) = a /\ b_of (whole_matcher a b) = b) /\
+  (forall a, hunks (whole_matcher a a) = []) /\
+  (forall K b t fi t' chs ds, Some b = Some t -> ex_T K t fi = Changed t' chs ds -> clean b -> clean t') /\
+  exists s', ex_run = Run.Ok s' /\ lookup (s_fs s') [102] = Some [98; 10] /\
+             fold_apply (reported [102] [ex_K] s') [97; 10] = Some [98; 10] /\ reported [102] [ex_K] s' <> [].
+Proof.
+  split; [|split; [|split]].
+  - intros a b. unfold whole_matcher, a_of, b_of.
+    destruct (list_eqb_spec str_eqb str_eqb_spec a b) as [->|_]; cbn; rewrite ?app_nil_r; split; reflexivity.
+  - intros a. unfold whole_matcher. destruct (list_eqb_spec str_eqb str_eqb_spec a a) as [_|H]; [reflexivity|congruence].
+  - intros K b t fi t' chs ds _ H _. unfold ex_T in H. destruct (str_eqb t [97; 10]); [|discriminate].
+    inversion H; subst. reflexivity.
+  - eexists. split; [vm_compute; reflexivity|]. vm_compute. repeat split; discriminate.
+Qed.
 
 (** ** Non-vacuity *)
 Definition ex_script : script :=
